@@ -116,6 +116,9 @@ def oracle(case) -> core.CaseResult:
         elif case["hkind"] == "xi_slope" and hmax > hmin:
             H = hmin + (hmax - hmin) * ii / (im - 1.0)
         G = roms.make_grid(jm, im, N=2, h=H, mask="none", dx=dx, seed=case["seed"])
+        # the critical depth of the vertical coordinate has no say in where the sea bed is: any value, also one
+        # larger than the shallowest depth, leaves the bottom of every cell where the file puts it
+        G["hc"] = float(H.min()) * (0.0, 0.5, 2.0, 10.0)[case["seed"] % 4]
         with e2e.workdir() as d:
             roms.write_roms(d / "g.nc", G, [], np.zeros((0, 2, jm, im - 1)), np.zeros((0, 2, jm - 1, im)))
             gkw = {"filename": str(d / "g.nc")}
